@@ -372,10 +372,22 @@ def get_field_types(type_: type[DataclassInstance]) -> dict[Field, Any]:
     """
     ret: dict[Field, Any] = {}
 
+    # Resolve forward references, including the ones nested inside non-string annotations
+    # such as tuple["Node", ...] or Optional["Node"]. `None` resolves to NoneType.
+    try:
+        type_hints: dict[str, Any] | None = get_type_hints(type_)
+    except (NameError, TypeError):
+        # Unresolvable references: fields with non-string annotations are used as-is
+        type_hints = None
+
     for field in fields(type_):
         f_type = field.type
-        if isinstance(f_type, str):
+        if type_hints is not None and field.name in type_hints:
+            f_type = type_hints[field.name]
+        elif isinstance(f_type, str):
             f_type = get_type_hints(type_).get(field.name)
+        elif f_type is None:
+            f_type = type(None)
 
         if f_type is None:
             raise RuntimeError(f"Could not determine type of field {field.name} for type {type_}")
